@@ -127,7 +127,7 @@ def r2_sum(ctx):
         if not pr:
             continue
         n += 1
-        tag = ",".join("%s" % v for _c, v in p.conds)
+        tag = Q.tags(p.conds)
         loops = [e for e in p.events if e.kind == "loop-enter"]
         it = loops[0].data[1] if loops else None
         ctx.check("R2", qn + "|iterates-all-steps", True if it == Q.self_attr("steps") else (False if it is not None and (it[0] == "sub" or by_name(ctx, it)) else None), "the loop runs over all of self.steps",
@@ -221,7 +221,7 @@ def r4_filter(ctx):
         if p.exit != "return":
             continue
         n += 1
-        single = p.conds and p.conds[-1][1]
+        single = Q.eq_truth(p, lambda c: c[3] == const(1) and c[2][0] == "call" and callee(c[2]) == "builtins.len", last=True) is True
         tag = "single" if single else "multi"
         fits = [e.data[0] for e in p.events if e.kind == "call" and e.data[0][1] == ("attr", Q.SELF, "fit")]
         okf = len(fits) == 1 and tuple(fits[0][2]) + tuple(v for _k, v in fits[0][3]) == TRIPLE[1]
